@@ -394,6 +394,34 @@ package ackhandler
 //@      implies(h.initialPackets != nil, 0 <= h.initialPackets.lastAckElicitingPacketTime && h.initialPackets.lastAckElicitingPacketTime <= 4611686018427387903) &&
 //@      implies(h.handshakePackets != nil, 0 <= h.handshakePackets.lastAckElicitingPacketTime && h.handshakePackets.lastAckElicitingPacketTime <= 4611686018427387903)
 
+//@ func (h *sentPacketHistory) FirstOutstanding
+//@   props C06
+//@   requires h.hInv()
+//@   ensures [none-or-listed] implies(result1 != nil, 0 <= result0 - h.firstPacketNumber && result0 - h.firstPacketNumber < len(h.packets) && h.packets[result0 - h.firstPacketNumber] == result1)
+//@   ensures [outstanding] implies(result1 != nil, !result1.IsPathMTUProbePacket && !result1.isPathProbePacket && (len(result1.StreamFrames) > 0 || len(result1.Frames) > 0))
+//@   ensures [first] implies(result1 != nil, forall(k, 0, result0 - h.firstPacketNumber, h.packets[k] == nil || h.packets[k].IsPathMTUProbePacket || h.packets[k].isPathProbePacket || (len(h.packets[k].StreamFrames) == 0 && len(h.packets[k].Frames) == 0), trig(h.packets, k)))
+//@   ensures [invalid-when-none] implies(result1 == nil, result0 == -1)
+//@   modifies nothing
+//@ loop (h *sentPacketHistory) FirstOutstanding #0
+//@   invariant 0 <= rangeidx && rangeidx <= len(h.packets)
+//@   invariant forall(k, 0, rangeidx, h.packets[k] == nil || h.packets[k].IsPathMTUProbePacket || h.packets[k].isPathProbePacket || (len(h.packets[k].StreamFrames) == 0 && len(h.packets[k].Frames) == 0), trig(h.packets, k))
+//@   modifies nothing
+
+// A PTO probe: the first outstanding packet is declared lost, leaves the bytes in flight exactly once, and its frames are
+// queued for retransmission -- in that order (queueFramesForRetransmission clears the frames).
+//@ func (h *sentPacketHandler) QueueProbePacket
+//@   props C06
+//@   let sp = ite(encLevel == protocol.EncryptionInitial, h.initialPackets, ite(encLevel == protocol.EncryptionHandshake, h.handshakePackets, h.appDataPackets))
+//@   requires encLevel == protocol.EncryptionInitial || encLevel == protocol.EncryptionHandshake || encLevel == protocol.Encryption0RTT || encLevel == protocol.Encryption1RTT
+//@   requires sp != nil && sp.history.hInv() && 0 <= h.bytesInFlight
+//@   requires forall(k, 0, len(sp.history.packets), implies(sp.history.packets[k] != nil, 0 <= sp.history.packets[k].Length && (!sp.history.packets[k].includedInBytesInFlight || sp.history.packets[k].Length <= h.bytesInFlight)))
+//@   requires forall(k, 0, len(sp.history.packets), implies(sp.history.packets[k] != nil && !sp.history.packets[k].IsPathMTUProbePacket && !sp.history.packets[k].isPathProbePacket && (len(sp.history.packets[k].StreamFrames) > 0 || len(sp.history.packets[k].Frames) > 0), sp.history.numOutstanding >= 1))
+//@   let probed = lastresult("(*sentPacketHistory).FirstOutstanding", 1)
+//@   ensures [nothing-to-probe] implies(!result, h.bytesInFlight == old(h.bytesInFlight) && called("(*sentPacketHistory).DeclareLost") == 0 && called("(*sentPacketHandler).queueFramesForRetransmission") == 0)
+//@   ensures [probe-declared-lost-once] implies(result, called("(*sentPacketHistory).DeclareLost") == 1 && called("(*sentPacketHandler).queueFramesForRetransmission") == 1)
+//@   ensures [probe-leaves-flight] implies(result, called("(*sentPacketHandler).removeFromBytesInFlight") == 1 && h.bytesInFlight <= old(h.bytesInFlight))
+//@   modifies h.bytesInFlight, elems(*packet), heap(packet.includedInBytesInFlight), heap(packet.StreamFrames), heap(packet.Frames), sp.history.numOutstanding, sp.history.packets, sp.history.packets[*], sp.history.firstPacketNumber
+
 //@ func (h *sentPacketHistory) FirstOutstandingPathProbe
 //@   props C06
 //@   ensures [none] implies(len(h.pathProbePackets) == 0, result0 == -1 && result1 == nil)
